@@ -338,6 +338,11 @@ PROPERTIES["C01"] = {
            "thorough": "1..4 messages in the carry-over, 0..4 in the pipe"},
           params={"quick": {"max_carry": 3, "max_pipe": 3}, "thorough": {"max_carry": 4, "max_pipe": 4}}, budget={"quick": 600, "thorough": 3000},
           required_covers=["c01.batch.assembled", "c01.batch.topped-up-from-pipe", "c01.batch.left-carry-over"]),
+        M("c01_batch_assembly_first_path", "d_c01", "first_batch_path",
+          {"quick": "the other batch assembly of the operational loop (the select! arm that received a message from the socket core with an empty carry-over), region mode from its `outgoing_batch.clear()` to the hand-over of the batch: 0..3 further messages in the pipe, symbolic sizes and batch options as above",
+           "thorough": "0..4 further messages"},
+          params={"quick": {"max_pipe": 3}, "thorough": {"max_pipe": 4}}, budget={"quick": 400, "thorough": 1500},
+          required_covers=["c01.batch.assembled", "c01.batch.topped-up-from-pipe", "c01.batch.left-carry-over"]),
         M("c01_dealer_pending_queue_drained", "d_c01", "dealer_pending_drain",
           {"quick": "DealerSocketOutgoingProcessor::run (the DEALER's background task: a loop around two nested tokio::select!, executed from its coroutine MIR together with the macro's poll_fn closures; the unbiased inner select's start branch is explored for every value): 1..4 messages queued with notify_one() each while no peer was attached, then a peer with room attaches (before or after the task's first poll); the task is polled until it parks with no notification pending",
            "thorough": "1..6 messages"},
@@ -349,11 +354,11 @@ PROPERTIES["C01"] = {
     "manifest": {
         "engine": "mirsym",
         "technique": "region-mode symbolic execution of the session actor's batch-assembly loop inside its coroutine MIR (z3 decides every size comparison); symbolic execution of the session's EgressBuffer (MIR, z3) against a reference byte stream under every partial-write split",
-        "text": "The bytes handed to the socket writer are, chunk for chunk, exactly the pushed chunks in order (priority chunks ahead of queued data but never inside a chunk that is partly on the wire), for every split of the stream into partial writes; pending message/byte counters are exact. Batch assembly from the carry-over: for every carry-over / pipe content within the bound and every message size and batch option, the batch handed to the framer followed by what stays in the carry-over and in the pipe is exactly the send order - nothing lost, duplicated or overtaken - and the batch is never empty. DEALER: messages accepted while no peer was attached are all handed to the peer once it attaches (in order), the background task never parks with messages queued, a peer with room and no notification pending.",
+        "text": "The bytes handed to the socket writer are, chunk for chunk, exactly the pushed chunks in order (priority chunks ahead of queued data but never inside a chunk that is partly on the wire), for every split of the stream into partial writes; pending message/byte counters are exact. Batch assembly (both paths of the operational loop: from the carry-over, and from a freshly received message): for every carry-over / pipe content within the bound and every message size and batch option, the batch handed to the framer followed by what stays in the carry-over and in the pipe is exactly the send order - nothing lost, duplicated or overtaken - and the batch is never empty. DEALER: messages accepted while no peer was attached are all handed to the peer once it attaches (in order), the background task never parks with messages queued, a peer with room and no notification pending.",
         "design_ref": "DESIGN.md §5 C01",
-        "note": "Three kernels of the property (write queue, carry-over batch assembly, DEALER pending queue). NOT claimed: the first-batch path of the operational loop (inside the select! arm), the io_uring handler's batching, HWM back-pressure, transports, runtime flavours, end-to-end exactly-once delivery.",
+        "note": "Three kernels of the property (write queue, carry-over batch assembly, DEALER pending queue). NOT claimed: the io_uring handler's batching, HWM back-pressure, transports, runtime flavours, end-to-end exactly-once delivery.",
     },
-    "outside": "first-batch path, io_uring batching, HWM back-pressure, transports",
+    "outside": "io_uring batching, HWM back-pressure, transports",
 }
 PROPERTIES["C19"]["mirsym"].append(PROPERTIES["C01"]["mirsym"][0])
 
